@@ -529,7 +529,16 @@ func (w *World) block(on unsafe.Pointer, what string) {
 		if next == nil {
 			w.Stats.Deadlocks++
 			w.violate("deadlock", what+": no runnable task")
+			if w.mainParked {
+				// the caller itself is waiting (for this goroutine, most likely): let it see the deadlock
+				w.main.state = taskRunnable
+				w.main.deadlocked = true
+				w.cur = &w.main
+			}
 			raceDisable()
+			if w.cur == &w.main {
+				w.main.wake <- struct{}{}
+			}
 			<-t.wake // parked for good
 			raceEnable()
 			return
